@@ -205,6 +205,100 @@ def rule_meta_block_limit(chk, prog):
         chk.violation("K1-metablock", "sqfs_meta_writer_append", g, "no 8 KiB limit in the meta writer's append")
 
 
+def rule_index_position(chk, prog):
+    """K11-indexpos: a directory index entry names the metadata block its header starts in.  The block number stored
+    for the index (the field that receives the out-value of sqfs_meta_writer_get_position in dir_writer.c) is queried
+    *before* the header is appended: appending can flush the block and move the position on, so a position taken
+    afterwards is one block too far for a header that straddles a block boundary."""
+    from ..util import backward_slice
+    unit = prog.by_src.get("lib/sqfs/src/dir_writer.c")
+    if unit is None:
+        raise AnalysisBroken("dir_writer.c not in the closure")
+    fns = [f.build() for f in unit.functions.values() if not f.decl]
+    # position queries and the field their block out-value ends up in
+    sites = []      # (function holding the query, query call)
+    stores = []
+    for f in fns:
+        for c in f.calls():
+            if norm_callee(c.callee) != "sqfs_meta_writer_get_position" or len(c.ops) < 2:
+                continue
+            loc = strip_casts(c.ops[1])
+            if not (loc.is_inst and loc.op == "alloca"):
+                continue
+            loads = [u for u in f.uses.get(loc, []) if u.op == "load"]
+            # direct store into a heap struct field, or handed to a static helper that stores its parameter
+            for ld in loads:
+                for u in f.uses.get(ld, []):
+                    if u.op == "store" and strip_casts(u.ops[1]).is_inst and strip_casts(u.ops[1]).op == "getelementptr" and \
+                            strip_casts(u.ops[1]).field() and not strip_casts(u.ops[1]).field()[0].startswith("struct.sqfs_"):
+                        sites.append((f, c, f, u))
+                    elif u.op == "call" and u.callee:
+                        g = prog.fn(u.callee, unit)
+                        if g is None or g.decl or g.unit is not unit:
+                            continue
+                        g.build()
+                        k = [i for i, o in enumerate(u.ops) if o is ld]
+                        for i in k:
+                            if i >= len(g.params):
+                                continue
+                            for st in g.insts():
+                                if st.op == "store" and st.ops[0] is g.params[i] and strip_casts(st.ops[1]).is_inst and \
+                                        strip_casts(st.ops[1]).op == "getelementptr" and strip_casts(st.ops[1]).field():
+                                    sites.append((f, c, g, st))
+    if not sites:
+        chk.broke("dir_writer.c: no position query feeds an index entry")
+        return 0
+    # header appends: sqfs_meta_writer_append of a 12 byte local (the directory header)
+    def header_appends(f):
+        out = []
+        for c in f.calls():
+            if norm_callee(c.callee) == "sqfs_meta_writer_append" and len(c.ops) >= 3 and c.ops[2].is_const and c.ops[2].is_int:
+                src = strip_casts(c.ops[1])
+                if src.is_inst and src.op == "alloca" and c.ops[2].uval == 12:
+                    out.append(c)
+        return out
+    n = 0
+    for (f, q, g, st) in sites:
+        n += 1
+        chk.analysed(f)
+        inst = "%s:index-block@%d" % (g.name, st.line)
+        # events in f: the query q, and everything that appends a header (directly or in a callee)
+        bad = None
+        for c in f.calls():
+            app = []
+            if c in header_appends(f):
+                app = [c]
+            elif c.callee:
+                t = prog.fn(c.callee, unit)
+                if t is not None and not t.decl and t.unit is unit and header_appends(t.build()):
+                    app = [c]
+            for a in app:
+                # the header of this round must come after the query: the append must not run before the query in
+                # the same round (a dominates q inside the loop body)
+                if f.inst_dominates(a, q):
+                    bad = a
+        # the query sits in a helper that is called after the helper that appends
+        if g is not f and not header_appends(f):
+            pass
+        if f is not None and bad is None:
+            # query inside a function that is itself called after a header append by its caller
+            for cs in prog.callers_of(f):
+                h = cs.fn
+                h.build()
+                for c in h.calls():
+                    t = prog.fn(c.callee, unit) if c.callee else None
+                    if t is not None and not t.decl and t.unit is unit and t is not f and header_appends(t.build()):
+                        if h.inst_dominates(c, cs):
+                            bad = c
+        if bad is None:
+            chk.ok("K11-indexpos", inst, st, "the position stored for the index is queried before the header is appended")
+        else:
+            chk.violation("K11-indexpos", inst, bad, "the metadata writer's position is queried after the header was appended "
+                          "(line %d before line %d): when the header straddles a block boundary the index entry points one "
+                          "block too far" % (bad.line, q.line))
+    return n
+
+
 def run(chk):
     chk.explanation = (
         "The invariants themselves are predicates over image bytes (value-level). Decided: the structural checks the "
@@ -214,14 +308,19 @@ def run(chk):
         "store into an on-disk field on the writer path is range-proven, covered by a re-verified guard provider "
         "(directory header run limits incl. the exact 256-entry bound, id count, name length, device number, timestamps) "
         "or a reasoned exception; K13-padding: pad length is a remainder by cfg->devblksize; K1-metablock: 8 KiB limit "
-        "and uncompressed fallback. Sortedness, dense inode numbering, index placement and reference resolution are "
-        "not decided. K13-truncate and K11-everyblock (shared with C08) decide two layout-consistency conditions of the block writer.")
+        "and uncompressed fallback. Sortedness, dense inode numbering and reference resolution are "
+        "not decided; of index placement only K11-indexpos (the block recorded for a directory index is queried before its header is appended). K13-truncate and K11-everyblock (shared with C08) decide two layout-consistency conditions of the block writer.")
     chk.assumptions = ["superblock commit order and bytes_used are decided by the C14 check"]
     prog = load_program("gensquashfs")
     rule_compressor_contract(chk, prog)
     run_k7(chk, load_program("all"), "K7")
     rule_padding(chk, prog)
     rule_meta_block_limit(chk, prog)
+    rule_index_position(chk, prog)
+    from .c02 import rule_seqstamp
+    rule_seqstamp(chk, prog)
+    chk.floor("K11-seqstamp", 2)
+    chk.floor("K11-indexpos", 1)
     chk.floor("K1-contract", 4)
     from .c08 import rule_g_truncate, rule_i_every_block
     rule_g_truncate(chk, load_program("gensquashfs"))
